@@ -4,6 +4,7 @@ import CifModel.Props.C14
 import CifModel.Props.C10
 import CifModel.Lemmas.StoreReadPaths
 import CifModel.Lemmas.StoreRefineW
+import CifModel.Props.ReviewC07
 /-
   Property C07 — the READ PATHS (group gY).  Props/C07.lean ends at the two SQL statements the readers use (`ReadsBack`); here the
   readers themselves:
@@ -322,5 +323,13 @@ example : C07_HandleFor sR3.db lR 1 (a!"_x") := ⟨by decide +kernel, rfl, by de
 -- numbers: the parsed, and a produced one whose text alone gives the doubles back
 example : C07_numbProduced (Model.Numb.numbOfText false (a!"-1.50e3(2)")) :=
   C07_numbProduced.parsed _ _ ⟨true, [1, 5, 0], some [2], -3 + 2⟩ (by decide +kernel)
+-- cif_value_init_numb(1.5, 0, scale 1, 5), then cif_value_set_quoted: the hypothesis of C07_number_read_identical holds, and its
+-- conclusion, executed: the text "1.5" alone gives the double 1.5 = 6755399441055744 * 2^-52
+example : ∃ t n d s sc, C07_numbProduced (.numb true t n d s sc) :=
+  ReviewC07.produced_of_init ⟨false, 3, -1⟩ ⟨false, 0, 0⟩ 1 5 0 true (by decide +kernel)
+example : (Model.Numb.getNumber (.chr false (a!"1.5"))).toOption.map (·.2) = some (.fin false 6755399441055744 (-52)) := by
+  decide +kernel
+-- the driver's handler program is the all-continue program of the walk theorems
+example : (fun _ _ => CONTINUE : Prog) = allCont := rfl
 
 end CifModel
